@@ -17,7 +17,7 @@ from vp_common import VERIF, REPO, load_known, write_evidence, report
 PKG = os.path.join(VERIF, "target", "c19", "pkg")
 TARGET = os.path.join(VERIF, "target", "c19", "target")
 PROTOS = [(v, p) for p in ("Local", "Public") for v in (1, 2, 3, 4)]
-TYPE_ERRORS = {"E0308", "E0277", "E0599", "E0271", "E0061", "E0282", "E0283", "E0284", "E0631", "E0107", "E0369", "E0614", "E0618", "E0057", "E0060"}
+TYPE_ERRORS = {"E0451", "E0560", "E0063", "E0308", "E0277", "E0599", "E0271", "E0061", "E0282", "E0283", "E0284", "E0631", "E0107", "E0369", "E0614", "E0618", "E0057", "E0060"}
 
 
 def pname(x):
@@ -173,6 +173,17 @@ def generate():
     for v in (1, 2, 3, 4):
         for rname, line in routes:
             add("4-symmetric-key-purpose", "PasetoSymmetricKey<V%d, Public> by %s" % (v, rname), "core", [], line % v, False)
+    # ... and by a struct literal (the wrappers' fields are private: key material can only get in through the typed
+    # constructors), for every key wrapper and the nonce
+    lit = [
+        ("PasetoSymmetricKey<V%d, Public>", "let _ = PasetoSymmetricKey::<V%d, Public> { version: std::marker::PhantomData, purpose: std::marker::PhantomData, key: Key::<32>::from([0u8; 32]) };"),
+        ("PasetoAsymmetricPublicKey<V%d, Public> from 31 bytes", "let _ = PasetoAsymmetricPublicKey::<V%d, Public> { version: std::marker::PhantomData, purpose: std::marker::PhantomData, key: &[7u8; 31] };"),
+        ("PasetoAsymmetricPrivateKey<V%d, Public> from 31 bytes", "let _ = PasetoAsymmetricPrivateKey::<V%d, Public> { version: std::marker::PhantomData, purpose: std::marker::PhantomData, key: &[7u8; 31] };"),
+        ("PasetoNonce<V%d, Local> from 5 bytes", "let _ = PasetoNonce::<V%d, Local> { version: std::marker::PhantomData, purpose: std::marker::PhantomData, key: &[7u8; 5] };"),
+    ]
+    for v in (1, 2, 3, 4):
+        for lname, line in lit:
+            add("4-struct-literal", lname % v, "core", [], line % v, False)
     documented = {(2, 64, "Private"), (4, 64, "Private"), (3, 48, "Private"), (2, 32, "Public"), (4, 32, "Public"), (3, 49, "Public")}
     for half in ("Private", "Public"):
         for v in (1, 2, 3, 4):
